@@ -8,7 +8,7 @@ import numpy as np
 import scipy.optimize
 
 from lib.core import import_darsia
-from checks.wcommon import incidence, transport_cost, make_images
+from checks.wcommon import incidence, transport_cost, make_images, quadrature, cell_flux
 
 LEVEL = "exploration"
 L1 = {"cell": "CONSTANT_CELL_PROJECTION", "subcell": "CONSTANT_SUBCELL_PROJECTION", "rt": "RAVIART_THOMAS"}
@@ -68,21 +68,63 @@ def cycle_basis(grid, D):
     return scipy.linalg.null_space(D.toarray())
 
 
-def brute_force_min(darsia, grid, rhs, l1, wflat, nq, u0, nstarts=3):
+VERBOSE = False
+
+
+def certified_min(darsia, grid, rhs, l1, wflat, nq, u0):
+    """Certified bracket [LB, UB] of the minimum of the discrete transport cost over all mass-conserving fluxes.
+
+    The cost is f(z) = vol * sum_{c,q} w_q |W_c A_{c,q} (u0 + N z)| (N = cycle basis): convex, a sum of Euclidean norms of
+    affine functions.  f_eps (norms replaced by sqrt(|.|^2 + eps^2)) is smooth and convex with f <= f_eps <= f + eps * S,
+    S = vol * sum_{c,q} w_q.  At any point z convexity gives  min f_eps >= f_eps(z) - |grad f_eps(z)| * R  for every minimiser
+    within distance R of z, hence  min f >= f_eps(z) - |grad| R - eps S =: LB, while UB = f(z).  The bracket is used only when
+    it is tight (UB - LB <= 2e-5 relative); R = 10 (1 + |z| + |u0|) is an assumption (the minimiser is not further away)."""
     D = incidence(grid)
     N = cycle_basis(grid, D)
-    if N.shape[1] == 0 or N.shape[1] > 6:
+    k = N.shape[1]
+    if k > 12:
         return None
-    f = lambda z: transport_cost(grid, u0 + N @ z, L1[l1], wflat, nq)[0]
-    best = f(np.zeros(N.shape[1]))
-    rs = np.random.RandomState(0)
-    for s in range(nstarts):
-        z0 = np.zeros(N.shape[1]) if s == 0 else rs.randn(N.shape[1]) * np.abs(u0).max()
-        for meth in ("Powell", "Nelder-Mead"):
-            r = scipy.optimize.minimize(f, z0, method=meth, options={"xatol": 1e-10, "fatol": 1e-12, "maxiter": 4000} if meth == "Nelder-Mead" else {"xtol": 1e-10, "ftol": 1e-12})
-            best = min(best, float(r.fun))
-            z0 = r.x
-    return best
+    pts, ws = quadrature(grid.dim, L1[l1], nq)
+    nf = int(grid.num_faces)
+    vol = float(np.prod(np.asarray(grid.voxel_size, dtype=float)))
+    # A[q] : (ncells, dim, nfaces) linear map face flux -> weighted cell flux at quadrature point q
+    eye = np.eye(nf)
+    A = []
+    for p in pts:
+        cols = [cell_flux(grid, eye[:, j], p) * wflat[:, None] for j in range(nf)]
+        A.append(np.stack(cols, axis=2))
+    scale = max(1.0, float(np.abs(u0).max()))
+    S = vol * float(sum(ws)) * int(grid.num_cells)
+
+    def f_eps(z, eps):
+        u = u0 + (N @ z if k else 0.0)
+        val, grad_u = 0.0, np.zeros(nf)
+        for Aq, w in zip(A, ws):
+            v = Aq @ u                                   # (ncells, dim)
+            r = np.sqrt((v ** 2).sum(axis=1) + eps ** 2)
+            val += w * r.sum()
+            grad_u += w * np.einsum("cd,cdf->f", v / r[:, None], Aq)
+        return vol * val, (vol * (N.T @ grad_u) if k else np.zeros(0))
+
+    z = np.zeros(k)
+    R0 = 10.0 * (1.0 + float(np.linalg.norm(u0)))
+    lb, ub = -np.inf, transport_cost(grid, u0, L1[l1], wflat, nq)[0]
+    for eps in [scale * 10.0 ** (-j) for j in (2, 3, 4, 5, 6, 7, 8)]:
+        if k:
+            for meth in ("BFGS", "CG", "BFGS"):   # restarts: a line search of BFGS may give up early next to a kink
+                r = scipy.optimize.minimize(lambda x: f_eps(x, eps), z, jac=True, method=meth, options={"gtol": 1e-13 * scale, "maxiter": 2000})
+                if r.fun <= f_eps(z, eps)[0]:
+                    z = r.x
+        fe, g = f_eps(z, eps)
+        # every level yields a valid lower bound and an attained value: keep the best of each
+        lb = max(lb, fe - float(np.linalg.norm(g)) * (R0 + 10.0 * float(np.linalg.norm(z))) - eps * S)
+        ub = min(ub, transport_cost(grid, u0 + (N @ z if k else 0.0), L1[l1], wflat, nq)[0])
+    R = R0
+    if ub - lb > 2e-5 * max(1e-3, abs(ub)):
+        if VERBOSE:
+            print("certified_min: bracket not tight", ub, lb, float(np.linalg.norm(g)), R, eps * S)
+        return None
+    return lb, ub
 
 
 def relations_event(darsia, rng, tid):
@@ -114,11 +156,12 @@ def relations_event(darsia, rng, tid):
         s1, s2 = make_images(darsia, shape, hs, c * a1.reshape(shape), c * a2.reshape(shape))
         sc, conv2 = solve(darsia, s1, s2, method, l1, mob, status=True)
         e["scaled6"] = d6(sc)
-        e["scale_applicable"] = int(bool(conv) and bool(conv2)) if 1 not in shape and dim > 1 else 1
+        unique = sum(1 for x in shape if x > 1) <= 1     # a path of cells: no flux cycles, the flux is unique
+        e["scale_applicable"] = 1 if unique else int(bool(conv) and bool(conv2))
         w = darsia.Image(np.full(shape, c), space_dim=dim, dimensions=[hs[a] * shape[a] for a in range(dim)], scalar=True)
         ws, conv3 = solve(darsia, img1, img2, method, l1, mob, weight=w, status=True)
         e["wscaled6"] = d6(ws)
-        e["wscale_applicable"] = int(bool(conv) and bool(conv3)) if 1 not in shape and dim > 1 else 1
+        e["wscale_applicable"] = 1 if unique else int(bool(conv) and bool(conv3))
         # first moment of the mass difference (cell centres), Euclidean length
         vol = float(np.prod(hs))
         idx = np.indices(shape).reshape(dim, -1).T
@@ -135,14 +178,14 @@ def relations_event(darsia, rng, tid):
             with np.errstate(all="ignore"):
                 e["back6"] = d6(cls(grid, None, dict(opts))(img1, img2))
         e["front6"] = e["base6"]
-        # brute-force minimum of the discrete cost over all mass-conserving fluxes (cycle space of <= 6 cycles)
+        # minimum of the discrete cost over all mass-conserving fluxes (cycle space), as a certified bracket
         D = incidence(grid)
         rhs = vol * (a2 - a1).reshape(shape).ravel("F")
         u0 = np.linalg.lstsq(D.toarray(), rhs, rcond=None)[0]
         nq = int(round(len(darsia.quadrature.gauss_reference_cell(dim, "max")[1]) ** (1.0 / dim)))
-        mn = brute_force_min(darsia, grid, rhs, l1, np.ones(n), nq, u0)
-        if mn is not None:
-            e["min6"] = d6(mn)
+        br = certified_min(darsia, grid, rhs, l1, np.ones(n), nq, u0)
+        if br is not None:
+            e["min6"] = d6(br[0])      # certified lower bound of the minimum (within 1e-6 relative of an attained value)
     except Exception as ex:  # noqa
         e["raised"] = 1
         e["error"] = repr(ex)[:200]
@@ -198,7 +241,7 @@ def run(ck, replay=None):
         if sum(m1) == 0:
             continue
         events.append(thin_event(darsia, rng, f"thinlong:{i}", m1, m2))
-    for i in range(6 if quick else 60):   # ~25 s each (several solves plus the brute-force minimum)
+    for i in range(6 if quick else 100):   # ~5-15 s each (six solver runs of up to 60 iterations)
         events.append(relations_event(darsia, rng, f"rel:{i}"))
     for i in range(8 if quick else 100):
         events.append(emd_event(darsia, rng, f"emd:{i}"))
@@ -214,7 +257,7 @@ def run(ck, replay=None):
         ck.violation(sig, f"{e['op']} violates {b['clause']}", {k: v for k, v in e.items() if k != "tid"})
     ck.cov["evaluations"] = len(events)
     ck.cov["distinct_nontrivial"] = len({json.dumps({k: v for k, v in e.items() if k in ("m1", "m2", "shape", "method", "l1", "mode", "mob")}, sort_keys=True) for e in events})
-    ck.cov["rule"] = "equal-mass integer pairs on chains enumerated by TLC (quick n<=4, thorough n<=6, entries 0..2) plus seeded chains up to 40 cells, each on a random thin orientation (1-D, n x 1, 1 x n, 3-D) with integer anisotropic sizes, random L1 mode / method / mobility; seeded relation cases on small 1-3-D grids (zero, swap, scaling, constant weight, first moment, brute-force minimum over <= 6 cycles, front-end dispatch); single-cell moves for the OpenCV back-end"
+    ck.cov["rule"] = "equal-mass integer pairs on chains enumerated by TLC (quick n<=4, thorough n<=6, entries 0..2) plus seeded chains up to 40 cells, each on a random thin orientation (1-D, n x 1, 1 x n, 3-D) with integer anisotropic sizes, random L1 mode / method / mobility; seeded relation cases on small 1-3-D grids (zero, swap, scaling, constant weight, first moment, certified minimum of the convex discrete cost over <= 12 flux cycles, front-end dispatch); single-cell moves for the OpenCV back-end"
     ck.cov["samples"] = [events[0], [e for e in events if e["op"] == "relations"][0]]
     ck.assumptions += ["distances are compared in 1e-6 units with 1e-5 absolute + relative tolerance; scaling clauses only for converged runs (or thin grids where the flux is unique)",
-                       "the brute-force minimum is computed by the harness (scipy, multiple starts) on the cycle space - an E4 observable, not computed by TLC"]
+                       "the minimum of the discrete cost is bracketed by the harness (smoothed convex minimisation on the cycle space, lower bound by convexity, accepted when tight to 2e-5) - an E4 observable, not computed by TLC"]
